@@ -421,6 +421,11 @@ func edgeDominates(from *ssa.BasicBlock, si int, b *ssa.BasicBlock) bool {
 // errNilRefinement: is value v (an error) known to be nil at block b, because
 // an "v != nil"/"v == nil" test dominates b on the nil edge?
 func knownNilAt(v ssa.Value, b *ssa.BasicBlock) bool {
+	for _, a := range storedAliases(v) {
+		if knownNilAt(a, b) {
+			return true
+		}
+	}
 	for _, ref := range refsOf(v) {
 		bin, ok := ref.(*ssa.BinOp)
 		if !ok || (bin.Op != token.NEQ && bin.Op != token.EQL) {
@@ -454,6 +459,11 @@ func knownNilAt(v ssa.Value, b *ssa.BasicBlock) bool {
 
 // knownNonNilAt is the dual.
 func knownNonNilAt(v ssa.Value, b *ssa.BasicBlock) bool {
+	for _, a := range storedAliases(v) {
+		if knownNonNilAt(a, b) {
+			return true
+		}
+	}
 	for _, ref := range refsOf(v) {
 		bin, ok := ref.(*ssa.BinOp)
 		if !ok || (bin.Op != token.NEQ && bin.Op != token.EQL) {
@@ -515,4 +525,32 @@ func refsOf(v ssa.Value) []ssa.Instruction {
 		return nil
 	}
 	return *r
+}
+
+// storedAliases: when v is stored into a local variable (named results and
+// variables spilled because of defer/closures are allocs in go/ssa), the
+// loads of that variable that can only see this store hold the same value.
+func storedAliases(v ssa.Value) []ssa.Value {
+	var out []ssa.Value
+	for _, ref := range refsOf(v) {
+		st, ok := ref.(*ssa.Store)
+		if !ok || st.Val != v {
+			continue
+		}
+		al, ok := st.Addr.(*ssa.Alloc)
+		if !ok {
+			continue
+		}
+		for _, r2 := range *al.Referrers() {
+			ld, ok := r2.(*ssa.UnOp)
+			if !ok || ld.Op != token.MUL || ld.X != ssa.Value(al) {
+				continue
+			}
+			stores, ok := reachingStores(al, ld)
+			if ok && len(stores) == 1 && stores[0] == st {
+				out = append(out, ld)
+			}
+		}
+	}
+	return out
 }
